@@ -1147,6 +1147,9 @@ func (w *responseWriter) WriteHeader(statusCode int) {
 	var err error
 	w.contentLen, err = httpExtractContentLength(w.Header())
 	if err != nil {
+		// don't pass the handler's broken framing headers on with the error
+		w.Header().Del("Content-Length")
+		w.Header().Del("Trailer")
 		w.reportError(err)
 		return
 	}
